@@ -8,20 +8,20 @@ import (
 	"github.com/free5gc/nas/logger"
 )
 
-// The library logs through logrus; the harness discards the output and raises the level before any
-// run so that logging cost and stderr volume do not influence anything (C19 restores a real sink).
+// The library logs through logrus; the harness discards the output and turns every level on (trace), so that code
+// which only runs when an application has turned diagnostics up is executed in every case. A reduced pass runs at the
+// library's default level (info) — withDefaultLogging.
 func init() {
 	l := logger.GetLogger()
 	l.SetOutput(io.Discard)
-	l.SetLevel(logrus.PanicLevel)
+	l.SetLevel(logrus.TraceLevel)
 }
 
-// withTraceLogging runs fn with the library logger at trace level (output still discarded): code that only runs
-// when an application has turned diagnostics on is library code too.
-func withTraceLogging(fn func()) {
+// withDefaultLogging runs fn with the library logger at its default level (info).
+func withDefaultLogging(fn func()) {
 	l := logger.GetLogger()
 	old := l.GetLevel()
-	l.SetLevel(logrus.TraceLevel)
+	l.SetLevel(logrus.InfoLevel)
 	defer l.SetLevel(old)
 	fn()
 }
